@@ -463,12 +463,16 @@ static std::string last_op_of(const std::string& text) {
 // code rounds such a coefficient in a fixed direction whatever the sign of the other factor (known finding), so the class is part
 // of the violation key.
 static bool inexact_in_T(const mpz_class& z) {
-  if (!TI.fdigits || z == 0) return false;
-  size_t bits = mpz_sizeinbase(z.get_mpz_t(), 2); size_t tz = mpz_scan1(z.get_mpz_t(), 0);
-  return (int) (bits - tz) > TI.fdigits || (int) bits > TI.fmaxexp;
+  if (z == 0) return false;
+  size_t bits = mpz_sizeinbase(z.get_mpz_t(), 2);
+  // bounded integer boundary type: the coefficient itself is outside the range of T
+  if (TI.bits) return (int) bits > TI.bits - (TI.sgn ? 1 : 0);
+  if (!TI.fdigits) return false;
+  // floating point: beyond 2^mantissa (products and sums with it are rounded even when the value itself is a power of two)
+  return (int) bits > TI.fdigits;
 }
 static std::string coef_class(const std::vector<Constraint>& cv, int n) {
-  if (!TI.fdigits) return "";
+  if (!TI.fdigits && !TI.bits) return "";
   for (size_t i = 0; i < cv.size(); ++i) {
     if (inexact_in_T(mpz_class(cv[i].inhomogeneous_term()))) return "+coef-beyond-mantissa";
     for (int v = 0; v < n && v < (int) cv[i].space_dimension(); ++v) if (inexact_in_T(mpz_class(cv[i].coefficient(Variable(v))))) return "+coef-beyond-mantissa";
@@ -477,7 +481,7 @@ static std::string coef_class(const std::vector<Constraint>& cv, int n) {
 }
 
 static std::string coef_class(const std::vector<Congruence>& gv, int n) {
-  if (!TI.fdigits) return "";
+  if (!TI.fdigits && !TI.bits) return "";
   for (size_t i = 0; i < gv.size(); ++i) {
     if (inexact_in_T(mpz_class(gv[i].inhomogeneous_term()))) return "+coef-beyond-mantissa";
     for (int v = 0; v < n && v < (int) gv[i].space_dimension(); ++v) if (inexact_in_T(mpz_class(gv[i].coefficient(Variable(v))))) return "+coef-beyond-mantissa";
@@ -485,7 +489,7 @@ static std::string coef_class(const std::vector<Congruence>& gv, int n) {
   return "";
 }
 static std::string coef_class(const Sys& src) {
-  if (!TI.fdigits) return "";
+  if (!TI.fdigits && !TI.bits) return "";
   for (size_t i = 0; i < src.size(); ++i) {
     if (src[i].b.get_den() != 1 || inexact_in_T(src[i].b.get_num())) return "+coef-beyond-mantissa";
     for (size_t j = 0; j < src[i].a.size(); ++j) if (src[i].a[j].get_den() != 1 || inexact_in_T(src[i].a[j].get_num())) return "+coef-beyond-mantissa";
@@ -494,7 +498,7 @@ static std::string coef_class(const Sys& src) {
 }
 
 static std::string coef_class(const Linear_Expression& e, int n) {
-  if (!TI.fdigits) return "";
+  if (!TI.fdigits && !TI.bits) return "";
   if (inexact_in_T(mpz_class(e.inhomogeneous_term()))) return "+coef-beyond-mantissa";
   for (int v = 0; v < n && v < (int) e.space_dimension(); ++v) if (inexact_in_T(mpz_class(e.coefficient(Variable(v))))) return "+coef-beyond-mantissa";
   return "";
